@@ -111,6 +111,23 @@ type hres struct {
 	msg   string
 	mat   ad.Matrix // the returned matrix object itself (recycle histories)
 	mat2  ad.Matrix
+	// the caller's INPUT objects of this call (matrix, right-hand side): they stay the caller's
+	// after the call, whatever the in-situ object retains (nil for gaussJordan, whose arguments are
+	// its work space and are refilled by the caller)
+	inM ad.Matrix
+	inV ad.Vector
+}
+
+// inputVals: the current content of the input objects of a call.
+func (r hres) inputVals() []float64 {
+	var v []float64
+	if r.inM != nil {
+		v = append(v, matVals(r.inM)...)
+	}
+	if r.inV != nil {
+		v = append(v, vecVals(r.inV)...)
+	}
+	return v
 }
 
 func (r hres) finite() bool { return allFinite(r.vals...) }
@@ -218,6 +235,7 @@ func newSessionR(routine, elem string, n int, buffers string, slot string, R ad.
 			})
 			r := finish(res, func() []float64 { return matVals(X) }, func() bool { return isNilM(X) })
 			r.mat = X
+			r.inM = a
 			return r
 		}
 	case "determinant":
@@ -244,7 +262,9 @@ func newSessionR(routine, elem string, n int, buffers string, slot string, R ad.
 				D = d
 				return err
 			})
-			return finish(res, func() []float64 { return []float64{D.GetFloat64()} }, func() bool { return D == nil })
+			r := finish(res, func() []float64 { return []float64{D.GetFloat64()} }, func() bool { return D == nil })
+			r.inM = a
+			return r
 		}
 	case "cholesky":
 		is := &cholesky.InSitu{}
@@ -282,6 +302,7 @@ func newSessionR(routine, elem string, n int, buffers string, slot string, R ad.
 				return v
 			}, func() bool { return isNilM(L) })
 			r.mat, r.mat2 = L, D
+			r.inM = a
 			return r
 		}
 	case "backSubstitution":
@@ -304,7 +325,12 @@ func newSessionR(routine, elem string, n int, buffers string, slot string, R ad.
 				X = x
 				return err
 			})
-			return finish(res, func() []float64 { return vecVals(X) }, func() bool { return isNilV(X) })
+			r := finish(res, func() []float64 { return vecVals(X) }, func() bool { return isNilV(X) })
+			r.inM = a
+			if b != nil {
+				r.inV = b
+			}
+			return r
 		}
 	case "gaussJordan":
 		// the routine works in its own arguments: the caller refills the same three objects
@@ -420,7 +446,9 @@ func runHist(h HCase) hverdict {
 	}
 	s := newSession(h.Routine, h.Elem, h.N, h.Buffers)
 	r1 := s(h.First)
+	in1 := r1.inputVals() // the first call's input objects as that call left them
 	r2 := s(h.Second)
+	in1after := r1.inputVals()
 	fresh := newSession(h.Routine, h.Elem, h.N, h.Buffers)(h.Second)
 	fc := firstClass(h)
 	first := r1.label
@@ -453,6 +481,14 @@ func runHist(h HCase) hverdict {
 		// judge this; here it would only make the history vacuous
 		v.outcome += "(fresh-call:" + fresh.label + ")"
 		v.nontriv = false
+	}
+	// caller input retained as persistent state: the input objects of the FIRST call must not be
+	// touched by the second call on the same in-situ object
+	if len(in1) > 0 {
+		if ok, i := sameBits(in1, in1after); !ok && v.key == "" {
+			v.key = key("input-of-earlier-call-modified-by-later-call")
+			v.what = fmt.Sprintf("%s changed the input objects (matrix, right-hand side) of call 1: after call 1 %v, after call 2 %v (first difference at position %d)", descr(), in1, in1after, i)
+		}
 	}
 	return v
 }
@@ -850,7 +886,9 @@ func runRecycle(h HCase) hverdict {
 	if r1.label != "returned" || isNilM(R) {
 		return hverdict{outcome: "recycle from=" + from + ":producer-" + r1.label}
 	}
+	in1 := r1.inputVals()
 	r2 := newSessionR(h.Routine, h.Elem, h.N, h.Buffers, h.Slot, R)(h.Second)
+	in1after := r1.inputVals()
 	fresh := newSession(h.Routine, h.Elem, h.N, h.Buffers)(h.Second)
 	v := hverdict{outcome: "recycle from=" + from + ",second=" + r2.label, nontriv: true}
 	descr := func() string {
@@ -875,6 +913,14 @@ func runRecycle(h HCase) hverdict {
 	if fresh.label != "returned" || !fresh.finite() {
 		v.outcome += "(fresh-call:" + fresh.label + ")"
 		v.nontriv = false
+	}
+	// the producer's input stays the caller's: writing into the matrix the producer RETURNED must
+	// not reach the matrix it was GIVEN
+	if len(in1) > 0 {
+		if ok, i := sameBits(in1, in1after); !ok && v.key == "" {
+			v.key = key("input-of-producer-call-modified-by-second-call")
+			v.what = fmt.Sprintf("%s changed the input matrix of the producer call: before %v, after %v (first difference at position %d)", descr(), in1, in1after, i)
+		}
 	}
 	return v
 }
